@@ -102,3 +102,66 @@ func Verif_H10Upgrade() {
 	vrt.Assert(u2.Close() == nil, "close2-no-error")
 	vrt.Cover("h10-end")
 }
+
+// Verif_H10Dangling: C10, clause "entries whose primary data no longer exists are dropped
+// rather than mis-pointed". The legacy primary lost its tail (the last `dangling` records),
+// so the legacy index holds entries whose offsets are not in the primary any more; keys
+// are symbolic, so the dangling entries take every position in their buckets' record lists.
+func Verif_H10Dangling() {
+	dir := vrt.TempDir()
+	big := vcfg{bits: 8, ifs: 1 << 30, pfs: 1 << 30, primary: MultihashPrimary}
+	s, err := openCfg(dir, big)
+	vrt.Assert(err == nil, "open-no-error")
+	if err != nil {
+		return
+	}
+	nk, nd := vrt.Param("keys", 4), vrt.Param("dangling", 2)
+	keys := mkKeys(nk, 4, big.bits)
+	m := newModel(len(keys))
+	for i := range keys {
+		v := vrt.Bytes("pval", 1)
+		vrt.Assert(s.Put(keys[i], v) == nil, "put-no-error", "where", "legacy-history")
+		m.set(i, true, v)
+	}
+	vrt.Assert(s.Close() == nil, "close-no-error")
+	makeLegacy(dir, big.bits)
+	dp := filepath.Join(dir, "d")
+	fi, err := os.Stat(dp)
+	vrt.Assert(err == nil, "legacy-setup")
+	recSize := int64(4 + len(keys[0]) + 1)
+	vrt.Assert(fi.Size() == int64(nk)*recSize, "legacy-setup")
+	vrt.Assert(os.Truncate(dp, fi.Size()-int64(nd)*recSize) == nil, "legacy-setup")
+	for i := nk - nd; i < nk; i++ {
+		m.set(i, false, nil) // this key's data no longer exists
+	}
+
+	c := symCfg()
+	c.bits = big.bits
+	c.immutable = false
+	open := func(d string) (*Store, error) {
+		return OpenStore(context.Background(), c.primary, filepath.Join(d, "d"), filepath.Join(d, "i"), false,
+			IndexBitSize(c.bits), IndexFileSize(c.ifs), PrimaryFileSize(c.pfs), GCIntervalNs(1<<40), GCTimeLimitNs(0), SyncIntervalNs(1<<40))
+	}
+	u, err := open(dir)
+	vrt.Assert(err == nil, "upgrade-open-no-error")
+	if err != nil {
+		return
+	}
+	checkAll(u, keys, m, "upgraded-with-lost-tail")
+	checkIter(u, keys, m, "upgraded-with-lost-tail")
+	if vrt.Param("afterop", 1) != 0 {
+		apiStep(u, c, keys, m, []int{opPut, opRemove}[vrt.Choose("after-op", 2)], "after-upgrade")
+	}
+	vrt.Assert(u.Flush() == nil, "flush-no-error")
+	checkAll(u, keys, m, "after-upgrade")
+	fsck(u, dir, "after-upgrade")
+	vrt.Assert(u.Close() == nil, "close-upgraded-no-error")
+	u2, err := open(dir)
+	vrt.Assert(err == nil, "reopen-upgraded-no-error")
+	if err != nil {
+		return
+	}
+	checkAll(u2, keys, m, "upgraded-reopened")
+	vrt.Assert(u2.Close() == nil, "close2-no-error")
+	vrt.Cover("h10d-end")
+}
